@@ -111,6 +111,10 @@ def cases(rng, tier):
             if rng.chance(1, 5):
                 pkt["opt"] = {"udp": 1440, "version": 0, "codes": []}
             if rng.chance(1, 4):
+                pkt["opcode"] = rng.choice(dns.NAMED_OPCODES)
+            if rng.chance(1, 6):
+                pkt["rcode"] = rng.choice([1, 2, 3, 5])
+            if rng.chance(1, 4):
                 pkt["flags"] = 0x8000 | rng.choice([0, 0x0400, 0x0100, 0x0080, 0x0200])
             b, _ = dns.encode_marked(pkt, rng, rng.choice([0, 3]))
             toks += ["D"] + dns.name_toks(svc) + dns.name_toks(me) + [b.hex()]
